@@ -18,8 +18,12 @@ def run(ctx):
     ctx.run_bin("c17", ["all", "--out", tr])
     fails, drifts, _ = ctx.validate_trace("Trace_ConfigInit", tr)
     ev = vlib.read_ndjson(tr)
-    if not any(e["op"] == "pool" and e["ppure"] for e in ev) or not any(e["op"] == "pool" and not e["ppure"] and e["pure"] for e in ev):
-        raise vlib.ToolError("vacuity: pure and always-impure pools of a single-token market were not both observed")
+    # vacuity is judged from what the harness set up (market kinds, pool kinds), never from what the code answered
+    for want_pure in (True, False):
+        kinds = {e["kind"] for e in ev if e["op"] == "pool" and e["pure"] == want_pure}
+        if len(kinds) < 16 or not {"position_impact", "borrowing_factor", "total_borrowing", "primary"} <= kinds:
+            raise vlib.ToolError("vacuity: pools of a %s market were not all observed (%d kinds)"
+                                 % ("single-token" if want_pure else "two-token", len(kinds)))
     ctx.distinct += len({(e["op"], e["pure"], e["key"], e["kind"]) for e in ev})
     small = lambda e: {k: (v if not isinstance(v, dict) else "{%d constants}" % len(v)) for k, v in e.items()}
     ctx.cov["samples"] += [small(ev[0]), small([e for e in ev if e["op"] == "pool"][0])]
